@@ -154,6 +154,46 @@ pub fn run_case(case: &Value, out: &mut Out) {
             }
         }
     }
+    if mode == "forest" {
+        // very many layers: instead of one event per chunk, the nesting levels and visible flags as encoded, and what the
+        // loaded sprite reports for a sample of layers (around the 16-bit boundary and at both ends)
+        if let Some(p) = &prog {
+            let mut levels: Vec<u16> = vec![];
+            let mut visible: Vec<bool> = vec![];
+            for f in &p.frames {
+                for c in &f.chunks {
+                    if let prog::Chunk::Layer(l) = c {
+                        levels.push(l.level);
+                        visible.push(l.flags & 1 == 1);
+                    }
+                }
+            }
+            let mut samples: Vec<Value> = vec![];
+            let mut panics: Vec<String> = vec![];
+            if let Some(ase) = &ld.ase {
+                let nl = ase.num_layers();
+                let mut ids: Vec<u32> = (0..nl.min(48)).collect();
+                for c in [255u32, 256, 4096, 32767, 32768, 65535, 65536, 65537, 65538, 65539, 65540, 65600, 70000, 131072] {
+                    ids.extend(c.saturating_sub(3)..(c + 4).min(nl));
+                }
+                ids.extend(nl.saturating_sub(48)..nl);
+                ids.retain(|i| *i < nl);
+                ids.sort();
+                ids.dedup();
+                for i in ids {
+                    let r = std::panic::catch_unwind(std::panic::AssertUnwindSafe(|| {
+                        let l = ase.layer(i);
+                        json!({"i": i, "id": l.id(), "parent": l.parent().map_or(json!([]), |p| json!([p.id()])), "visible": l.is_visible()})
+                    }));
+                    match r {
+                        Ok(v) => samples.push(v),
+                        Err(_) => panics.push(format!("layer({}) {}", i, crate::PANIC_INFO.with(|p| p.borrow_mut().take()).unwrap_or_default())),
+                    }
+                }
+                out.ev(&json!({"ev": "forest", "case": id, "nl": nl, "levels": levels, "vis": visible, "samples": samples, "panics": panics}));
+            }
+        }
+    }
     let nhook_chunks = ld.hooks.iter().filter(|h| h["ev"] == "chunk").count();
     out.ev(&json!({"ev": "end", "case": id, "result": ld.result, "msg": ld.msg, "len": bytes.len(),
         "peak_kib": (ld.peak + 1023) / 1024, "maxreq_kib": (ld.maxreq + 1023) / 1024, "refused_kib": (ld.refused + 1023) / 1024,
